@@ -122,7 +122,7 @@ async fn gen_policy(rng: &mut Rng, nexus: &CognitiveNexus, nprinc: usize) {
         .unwrap();
 }
 
-async fn build(rng: &mut Rng, name: &str, long_chain: bool) -> World {
+async fn build(rng: &mut Rng, name: &str, long_chain: bool, multi: bool) -> World {
     let nexus = fresh(name).await;
     let gov = nexus.governance();
     let nprinc = 3 + rng.below(3) as usize;
@@ -193,8 +193,49 @@ async fn build(rng: &mut Rng, name: &str, long_chain: bool) -> World {
         let actor = draft.delegator_principal.clone();
         delegs.push(gov.create_delegation(draft, &actor).await.unwrap());
     }
+    if multi {
+        // delegators holding several delegable Grants of different shapes: a narrow one that carries
+        // an action and an unrelated broad one that does not, and direct Delegations whose bounds
+        // fit the narrow Grant, exceed it but fit the broad one, or exceed both
+        for round in 0..(1 + rng.below(3)) {
+            let pd = pid(rng.below(nprinc as u64) as usize);
+            let carried: Vec<String> = match rng.below(3) { 0 => vec!["read".into()], 1 => vec!["read".into(), "search".into()], _ => vec!["update".into(), "read".into()] };
+            let mut narrow_g = GrantDraft { space_id: SPACE.into(), grantee_principal: pd.clone(), actions: carried.clone(), delegation_allowed: true, ..Default::default() };
+            narrow_g.constraints.export = rng.chance(1, 2);
+            match rng.below(6) {
+                0 => narrow_g.constraints.max_classification = rng.pick(&["public", "internal"]).to_string(),
+                1 => narrow_g.scope.kinds = vec![rng.pick(&["evidence", "concept"]).to_string()],
+                2 => narrow_g.scope.classifications = vec!["public".into()],
+                3 => narrow_g.scope.elements = vec!["C-1".into()],
+                4 => narrow_g.conditions.min_auth_strength = "strong".into(),
+                _ => { narrow_g.constraints.max_classification = "public".into(); narrow_g.scope.kinds = vec!["concept".into()]; }
+            }
+            let others: Vec<String> = ["discover", "export", "create", "read_history"].iter().filter(|a| !carried.contains(&a.to_string()) && rng.chance(2, 3)).map(|a| a.to_string()).collect();
+            let mut broad_g = GrantDraft { space_id: SPACE.into(), grantee_principal: pd.clone(), actions: if others.is_empty() { vec!["discover".into()] } else { others }, delegation_allowed: true, ..Default::default() };
+            broad_g.constraints.export = true;
+            if rng.chance(1, 4) { broad_g.constraints.max_classification = "secret".into(); }
+            let (first, second) = if rng.chance(1, 2) { (narrow_g.clone(), broad_g.clone()) } else { (broad_g.clone(), narrow_g.clone()) };
+            grants.push(gov.create_grant(first, SYSTEM_PRINCIPAL).await.unwrap());
+            grants.push(gov.create_grant(second, SYSTEM_PRINCIPAL).await.unwrap());
+            for _ in 0..(1 + rng.below(2)) {
+                let mut d = DelegationDraft { space_id: SPACE.into(), delegator_principal: pd.clone(), delegate_principal: pid(rng.below(nprinc as u64) as usize), ..Default::default() };
+                d.actions = carried.clone();
+                d.actions.push("discover".into());
+                match rng.below(4) {
+                    0 => { d.scope = narrow_g.scope.clone(); d.conditions = narrow_g.conditions.clone(); d.constraints = narrow_g.constraints.clone(); }
+                    1 => { d.constraints.max_classification = "secret".into(); }
+                    2 => { d.constraints = broad_g.constraints.clone(); d.constraints.export = false; }
+                    _ => {}
+                }
+                d.may_redelegate = rng.chance(1, 2);
+                let actor = d.delegator_principal.clone();
+                delegs.push(gov.create_delegation(d, &actor).await.unwrap());
+            }
+            let _ = round;
+        }
+    }
     let mut policy_bound = false;
-    if rng.chance(1, 2) {
+    if !multi && rng.chance(1, 2) {
         gen_policy(rng, &nexus, nprinc).await;
         policy_bound = true;
     }
@@ -374,7 +415,8 @@ pub async fn main(args: &[String]) {
 
     for sc in 0..scenarios {
         let long_chain = sc % 7 == 3;
-        let mut w = build(&mut rng, &format!("c19_decide_{sc}"), long_chain).await;
+        let multi = sc % 3 == 1;
+        let mut w = build(&mut rng, &format!("c19_decide_{sc}"), long_chain, multi).await;
         let mut history: Vec<String> = vec!["build".into()];
         for step in 0..=steps {
             if step > 0 {
@@ -390,9 +432,28 @@ pub async fn main(args: &[String]) {
             let delegs: Vec<DelegationRow> = typed_rows(&w.nexus, "gov_delegations").await;
             let groups: Vec<PrincipalGroupRow> = typed_rows(&w.nexus, "gov_principal_groups").await;
             let space = w.nexus.store.get_space(SPACE).await.unwrap();
+            let policies: Vec<GovernancePolicyRow> = typed_rows(&w.nexus, "gov_policies").await;
+            let no_deny_in_force = space.default_policy_id.is_empty() || !policies.iter().any(|p| p.policy_id == space.default_policy_id
+                && p.statements.iter().any(|st| st.get("effect").and_then(|e| e.as_str()) != Some("allow")));
+            // requests aimed at every direct Delegation in force: what its delegate asks for through it
+            let mut aimed: Vec<Req> = Vec::new();
+            for d in delegs.iter().filter(|d| d.status == "active" && d.space_id == SPACE && d.parent_delegation.is_empty()) {
+                for action in d.actions.iter().filter(|a| PERMS.contains(&a.as_str())) {
+                    for _ in 0..2 {
+                        let mut auth = AuthContext::principal(d.delegate_principal.clone());
+                        auth.auth_strength = rng.pick(&["standard", "strong"]).to_string();
+                        let res = if rng.chance(1, 6) { ResourceContext::default() } else { ResourceContext {
+                            kind: rng.pick(&["concept", "evidence", "proposition"]).to_string(), schema_ref: String::new(),
+                            classification: rng.pick(&["public", "internal", "private", "secret", ""]).to_string(),
+                            element_id: rng.pick(&["C-1", "C-2", "E-1"]).to_string() } };
+                        aimed.push(Req { auth, perm: Permission::parse(action).unwrap(), res });
+                    }
+                }
+            }
+            aimed.truncate(nreq);
             let mut reqs: Vec<Value> = Vec::new();
-            for _ in 0..nreq {
-                let r = gen_req(&mut rng, &w);
+            for k in 0..nreq + aimed.len() {
+                let r = if k < nreq { gen_req(&mut rng, &w) } else { aimed[k - nreq].clone() };
                 let (obs, seen) = decide(&w.nexus, &r).await;
                 evaluations += 1;
                 *dist.entry(format!("decision:{}", seen.decision)).or_default() += 1;
@@ -431,7 +492,7 @@ pub async fn main(args: &[String]) {
                         }
                         // (iv) a direct delegation confers nothing its delegator does not hold now
                         if let Some(d) = delegs.iter().find(|d| d._id == id) {
-                            if seen.permitted && d.parent_delegation.is_empty() && space.default_policy_id.is_empty() {
+                            if seen.permitted && d.parent_delegation.is_empty() && no_deny_in_force {
                                 let mut a2 = r.auth.clone();
                                 a2.principal_id = d.delegator_principal.clone();
                                 a2.delegation_chain = vec![];
